@@ -327,33 +327,45 @@ theorem handoff_needs_acquire :
     ¬ hb trRelaxedSpin 0 3 :=
   Handoff.handoff_needs_acquire
 
-/-- **count_cells_only_rmw** — every event the replay machine accepts on the count cell of a shard is
-    a `fetch_add` ("A") or a compare-exchange ("C") — never a store or a swap — and a compare-exchange
-    there (only the collector's spin is one) has an ordering at least Acquire; as memory events they
-    read whenever they write. Role: this is the hypothesis "every write to `c` is an RMW" of
-    `handoff_hb` for `c` = a shard's count, so the release sequence headed by a publish is never cut
-    (by another observer's publish, the collector's reset in the spin, or its `addCount`). -/
+/-- **count_cells_only_rmw** — every event the replay machine accepts on the count cell of a shard is a
+    `fetch_add` ("A"), a compare-exchange ("C") or a load ("L": only the load of a `fetch_add` that is
+    written as a load + compare-exchange loop) — never a store or a swap; as memory events they all read,
+    so whenever one writes it is a read-modify-write (a successful compare-exchange IS one); and a
+    compare-exchange that is a collector's spin has an ordering at least Acquire. Role: this is the
+    hypothesis "every write to `c` is an RMW" of `handoff_hb` for `c` = a shard's count, so the release
+    sequence headed by a publish is never cut (by another observer's publish, the collector's reset in the
+    spin, or its `addCount`).
+    (Before the machine accepted a `fetch_add` written as a compare-exchange loop this read
+    `(e.k = "A" ∨ e.k = "C") ∧ (e.k = "C" → ordGe e.ord "Acquire") ∧ rd`: then the spin was the only
+    compare-exchange on a count cell; now a publish / `addCount` loop has them too, with the ordering of
+    the `fetch_add` they stand for, and the Acquire is stated of the spin.) -/
 theorem count_cells_only_rmw {k : Nat} {c : Hp.St} {cuts : HM.Cuts} {e : Conc.Ev} {pc : HM.Pc}
     {r : HM.Res × HM.Cuts} {b : Bool}
     (h : HM.evStep k c cuts e pc = .ok r) (hl : HM.parseLoc e.loc = .cnt b) :
-    (e.k = "A" ∨ e.k = "C") ∧ (e.k = "C" → Conc.ordGe e.ord "Acquire" = true) ∧
+    (e.k = "A" ∨ e.k = "C" ∨ e.k = "L") ∧
+    (∀ cold ov S, pc.task = some (.colSpin cold ov S) → e.k = "C" ∧ Conc.ordGe e.ord "Acquire" = true) ∧
     (Handoff.ofEv e).rd = true :=
-  ⟨(HM.evStep_cnt_kind h hl).1, (HM.evStep_cnt_kind h hl).2,
-    (Handoff.ofEv_rmw_of_kind (HM.evStep_cnt_kind h hl).1).1⟩
+  ⟨(HM.evStep_cnt_kind h hl).1, (HM.evStep_cnt_kind h hl).2.2, (HM.evStep_cnt_kind h hl).2.1⟩
 
 /-- **publish_is_release_spin_is_acquire** — the orderings the replay machine enforces on the two ends
-    of the hand-off. (1) The event accepted from an observer that has applied all its updates is a
-    `fetch_add` on the count of its shard with an ordering at least Release: a release RMW. (2) The
-    event accepted from a collector that has flipped is a compare-exchange on the count of the cold
-    shard with an ordering at least Acquire: it reads, and when it succeeds it is an acquire RMW.
+    of the hand-off. (1) An event accepted from an observer that has applied all its updates is on the
+    count of its shard and reads; it is either THE publish — a `fetch_add`, or the successful
+    compare-exchange of the loop that `fetch_add` may be written as, with an ordering at least Release: a
+    release RMW, which completes the call — or a stutter of that loop (a load, a failed compare-exchange)
+    that writes nothing, changes nothing and leaves the call open. (2) The event accepted from a collector
+    that has flipped is a compare-exchange on the count of the cold shard with an ordering at least
+    Acquire: it reads, and when it succeeds it is an acquire RMW.
     (3) "at least Release" / "at least Acquire" coincide with release / acquire semantics on every
     ordering string, in particular the five real ones. Role: the hypotheses on `p` and `a` of
-    `handoff_hb` hold for the publish and the successful spin of every accepted trace. -/
+    `handoff_hb` hold for the publish and the successful spin of every accepted trace.
+    (Before the machine accepted the loop, (1) read `e.k = "A" ∧ … ∧ rd ∧ wr ∧ rel`.) -/
 theorem publish_is_release_spin_is_acquire {k : Nat} {c : Hp.St} {cuts : HM.Cuts} {e : Conc.Ev} {pc : HM.Pc}
     {r : HM.Res × HM.Cuts} (h : HM.evStep k c cuts e pc = .ok r) :
     (∀ o b, pc.task = some (.obsRun o b []) →
-      e.k = "A" ∧ HM.parseLoc e.loc = .cnt b ∧ Conc.ordGe e.ord "Release" = true ∧
-      (Handoff.ofEv e).rd = true ∧ (Handoff.ofEv e).wr = true ∧ (Handoff.ofEv e).rel = true) ∧
+      HM.parseLoc e.loc = .cnt b ∧ (Handoff.ofEv e).rd = true ∧
+      (((e.k = "A" ∨ (e.k = "C" ∧ e.ok = true)) ∧ Conc.ordGe e.ord "Release" = true ∧
+          (Handoff.ofEv e).wr = true ∧ (Handoff.ofEv e).rel = true ∧ r.1.2.2 = some "") ∨
+       ((e.k = "L" ∨ (e.k = "C" ∧ e.ok = false)) ∧ (Handoff.ofEv e).wr = false ∧ r.1.1 = c ∧ r.1.2.2 = none))) ∧
     (∀ cold ov S, pc.task = some (.colSpin cold ov S) →
       e.k = "C" ∧ HM.parseLoc e.loc = .cnt cold ∧ Conc.ordGe e.ord "Acquire" = true ∧
       (Handoff.ofEv e).rd = true ∧ (e.ok = true → (Handoff.ofEv e).wr = true ∧ (Handoff.ofEv e).acq = true)) ∧
@@ -365,23 +377,75 @@ theorem publish_is_release_spin_is_acquire {k : Nat} {c : Hp.St} {cuts : HM.Cuts
   ⟨fun _ _ ht => HM.evStep_publish_release ht h, fun _ _ _ ht => HM.evStep_spin_acquire ht h,
     Handoff.ordGe_table⟩
 
+/-- **publish_as_cas_loop_accepted** — the freedom "a `fetch_add` may be written as a load + compare-exchange
+    loop" (`HM.fetchAdd`, used at every `fetch_add` site of the machine: claim, bucket updates, publish, flip,
+    `addHot` on a bucket, `addCount`), shown at the publish of an observer (task `obsRun o b []`, no loop in
+    progress) on a shard whose count holds the pattern `x`: (1) the single `fetch_add` Release of the weight
+    is accepted as before; (2) a Relaxed load of the count is accepted and changes nothing but the call's loop
+    state; (3) from there the compare-exchange `x -> x + w` with ordering Release that succeeds is accepted
+    and leads to EXACTLY the state the single `fetch_add` leads to; (4) a failed one that reports the count
+    changes nothing (the call may then reload or retry with the reported value, `HM.fetchAdd_after_failure`).
+    The machine-independent facts for all six sites are `HM.fetchAdd_single`, `HM.fetchAdd_load`,
+    `HM.fetchAdd_cas_ok`, `HM.fetchAdd_cas_failed`, `HM.fetchAdd_cases`. -/
+theorem publish_as_cas_loop_accepted {k : Nat} {c : Hp.St} {cuts : HM.Cuts} {pc : HM.Pc} {o : Obs} {b : Bool}
+    (ht : pc.task = some (.obsRun o b [])) (hi : pc.icur = none) (t : Nat) (l : String)
+    (hl : HM.parseLoc l = .cnt b) :
+    let x := (c.sh b).count.toUInt64
+    let w := o.w.toUInt64
+    let c' : Hp.St := { c with sh := modSh c.sh b (fun sd => { sd with count := sd.count + o.w }) }
+    let done : HM.Pc := { pc with task := none, icur := none, ifailed := false }
+    let loaded : HM.Pc := { pc with icur := some x, ifailed := false }
+    HM.evStep k c cuts ⟨t, "A", l, "Release", w, 0, x, true⟩ pc = .ok ((c', done, some ""), cuts) ∧
+    HM.evStep k c cuts ⟨t, "L", l, "Relaxed", 0, 0, x, true⟩ pc = .ok ((c, loaded, none), cuts) ∧
+    HM.evStep k c cuts ⟨t, "C", l, "Release", x, x + w, x, true⟩ loaded = .ok ((c', done, some ""), cuts) ∧
+    HM.evStep k c cuts ⟨t, "C", l, "Release", x, x + w, x, false⟩ loaded =
+      .ok ((c, { pc with icur := some x, ifailed := true }, none), cuts) := by
+  intro x w c' done loaded
+  have og : Conc.ordGe "Release" "Release" = true := by decide +kernel
+  have htl : loaded.task = some (.obsRun o b []) := ht
+  refine ⟨?_, ?_, ?_, ?_⟩
+  · rw [HM.evStep_eq_evStep1 (by intros; simp [ht])]
+    unfold HM.evStep1
+    simp only [ht]
+    rw [HM.fetchAdd_single rfl hl og rfl rfl rfl hi]
+    rfl
+  · rw [HM.evStep_eq_evStep1 (by intros; simp [ht])]
+    unfold HM.evStep1
+    simp only [ht]
+    rw [HM.fetchAdd_load rfl hl rfl hi]
+    rfl
+  · rw [HM.evStep_eq_evStep1 (by intros; simp [htl])]
+    unfold HM.evStep1
+    simp only [htl]
+    rw [HM.fetchAdd_cas_ok (cur := x) rfl rfl hl og rfl rfl rfl rfl rfl rfl]
+    rfl
+  · rw [HM.evStep_eq_evStep1 (by intros; simp [htl])]
+    unfold HM.evStep1
+    simp only [htl]
+    rw [HM.fetchAdd_cas_failed (cur := x) rfl rfl hl og rfl rfl rfl rfl]
+    rfl
+
 open Prom.Handoff in
 /-- **replayed_publish_happens_before_collect** — the three facts combined, for whole traces: in the
     memory-event trace (`HM.memTrace`) of ANY trace the histogram machine replays without divergence,
     a release write `p` to a shard's count cell (every observer publish is one) synchronizes with every
-    later successful compare-exchange `a` on that cell (every successful collector spin), and every
-    event program-ordered before `p` happens-before every event program-ordered after `a`. -/
+    later successful compare-exchange `a` with an ordering at least Acquire on that cell (every successful
+    collector spin is one, `publish_is_release_spin_is_acquire` (2)), and every event program-ordered before
+    `p` happens-before every event program-ordered after `a`. (The hypothesis `haacq` is new: while the spin
+    was the only compare-exchange the machine accepted on a count cell it followed from `hak`; a publish or
+    an `addCount` written as a compare-exchange loop is one too, with its own ordering.) -/
 theorem replayed_publish_happens_before_collect {tr : List Conc.Item} {s s' : HM.St} {n : Nat}
     (h : Conc.runItems HM.item s tr n = .ok s')
     {p a : Nat} {ep ea : Conc.Ev} {b : Bool} (hpa : p < a)
     (hp : (HM.evsOf tr)[p]? = some ep) (ha : (HM.evsOf tr)[a]? = some ea)
     (hal : HM.parseLoc ea.loc = .cnt b) (hak : ea.k = "C") (haok : ea.ok = true)
+    (haacq : Conc.ordGe ea.ord "Acquire" = true)
     (hpl : ep.loc = ea.loc) (hpw : (ofEv ep).wr = true) (hprel : (ofEv ep).rel = true) :
     sw (HM.memTrace tr) p a ∧
     (∀ e f, po (HM.memTrace tr) e p → po (HM.memTrace tr) a f → hb (HM.memTrace tr) e f) ∧
     (∀ e, po (HM.memTrace tr) e p → hb (HM.memTrace tr) e a) ∧
     (∀ f, po (HM.memTrace tr) a f → hb (HM.memTrace tr) p f) :=
-  HM.replay_handoff h hpa hp ha hal hak haok hpl hpw hprel
+  HM.replay_handoff h hpa hp ha hal hak haok haacq hpl hpw hprel
 
 
 /-- non-vacuity: a reachable state with one observer and one collector that has returned a snapshot
